@@ -14,7 +14,7 @@ M3  Acquire/Release events are validated by TLC against spec/DirLock/DirLockProp
 import json, os, sys, re, subprocess
 sys.path.insert(0, os.path.join(os.path.dirname(os.path.abspath(__file__)), "..", "lib"))
 from vlib import *
-from vpar import validate_traces_parallel
+from vpar import validate_traces_parallel, fast_tmp
 
 GEN = """SPECIFICATION Spec
 CONSTANTS
@@ -54,11 +54,12 @@ def run_driver(ctx, scheds):
         if not part:
             continue
         d = ctx.mkdtemp("drv")
+        work = fast_tmp(ctx, "work")
         inp, outp = os.path.join(d, "in.ndjson"), os.path.join(d, "out.ndjson")
         with open(inp, "w") as fh:
             for s in part:
                 fh.write(json.dumps(s) + "\n")
-        p = subprocess.Popen([binp, "-in", inp, "-out", outp, "-dir", d], stdout=subprocess.PIPE, stderr=subprocess.STDOUT, text=True)
+        p = subprocess.Popen([binp, "-in", inp, "-out", outp, "-dir", work], stdout=subprocess.PIPE, stderr=subprocess.STDOUT, text=True)
         procs.append((p, outp))
     traces = {}
     for p, outp in procs:
@@ -112,10 +113,10 @@ def run(ctx):
     # the same interleavings with the contenders in separate processes (flock across processes)
     pick = list(range(nthreads))
     ctx.rng.shuffle(pick)
-    nprocs = 40 if quick else 400
+    nprocs = 40 if quick else 300
     for i in pick[:nprocs]:
         scheds.append({"n": scheds[i]["n"], "steps": scheds[i]["steps"], "mode": "procs"})
-    nfree = 4 if quick else 40
+    nfree = 4 if quick else 30
     for i in range(nfree):
         scheds.append({"n": 3, "steps": [], "mode": "free", "seed": ctx.seed * 1000 + i, "loops": 150})
     replays = json.load(open(os.path.join(VERIF, "findings", "dirlock_replays.json")))
